@@ -83,6 +83,11 @@ def _label_class(labels):
 
 
 def _labels(rng, nvdim):
+    if nvdim > 1 and rng.random() < 0.08:
+        # the labels the library's own sample file (and older versions) use: "any labels"
+        base = ["x", "y", "z", "w"][:nvdim]
+        return [b + gen.pick(rng, ["-component", "-component", "_component"]) for b in base] \
+            if rng.random() < 0.7 else [b + "-component" if j else b for j, b in enumerate(base)]
     labs = ig.rand_labels(rng, nvdim)
     if labs is not None and any(c in ("field", "norm", "valid") for c in labs):
         return None
